@@ -93,6 +93,9 @@ def judgeHist (h : Hist) (steps : List Tok) : String := Id.run do
   let mut maxH := 1
   let mut sts := steps
   let mut firstDiff : Option String := none
+  -- families whose class says "specOnly" (non-dyadic coordinates: the heuristics' float arithmetic is
+  -- inexact, the tree may differ from the exact model by tie-breaking) are judged by the Spec only
+  let specOnly := (h.cls.splitOn "specOnly").length > 1
   for (name, op) in h.ops do
     i := i + 1
     let at_ := s!"step={i}/{m}-op={name}"
@@ -109,7 +112,7 @@ def judgeHist (h : Hist) (steps : List Tok) : String := Id.run do
         -- correspondence with the model; after the first difference only the Spec is evaluated
         -- on the remaining steps (a later SPEC verdict takes precedence over the DIFF)
         let dump := nodeStr r.tree
-        if firstDiff.isNone then
+        if firstDiff.isNone && !specOnly then
           match model.step goHeur op with
           | .error f => firstDiff := some s!"{at_}-model-faults-{faultStr f}-impl-does-not"
           | .ok (t', dr) =>
